@@ -422,4 +422,9 @@ example :
      | .ok o => o.done && o.obj == some 5 && o.parsed == some (32, [91, 49, 44, 50, 93]) && o.reads.length == 4
      | .fault _ => false) = true := by decide
 
+
+/-- every source fact this property's model consumes was located in the current source by tools/extract (a fact that is not
+found is emitted with a placeholder value; this obligation then fails and the check uses the reference model) -/
+theorem source_facts_located_c20 : JsonC.Generated.factsFound_fdio = true := by decide
+
 end JsonC.FdIO
